@@ -99,6 +99,26 @@ GnumShapes ==
     << <<FnSlot(<<"isNaN", "isFinite">>), AllVals>>, <<FnSlot(<<"isNaN", "isFinite">>)>>,
        <<FnSlot(<<"isNaN", "isFinite">>), OrdVals, OrdVals>> >>
 ConstShapes == << <<FnSlot(ConstNames)>> >>
+
+(* family "rep": the same NUMBER reaches a function in different internal representations.  An       *)
+(* implementation may keep the result of a bitwise operator as a 32-bit integer, the result of >>> as *)
+(* an unsigned one, a product as a double; 15.8.2 / 15.1.2.4-5 see only the Number value.  A carrier  *)
+(* is an expression around the literal; the argument the function must see is computed here (9.5,    *)
+(* 9.6), so the case is judged by the same CallMath / CallGlobalNum as the literal cases.             *)
+Carriers == <<"or0", "shr0", "notnot", "shl0", "mul1", "neg0">>
+RepInts == <<I(0), I(1), I(-1), I(7), I(-7), I(1073741824), I(-1073741824), Canon(FALSE, BnFromInt(2147483647), 0),
+             NumNeg(Pw2(31)), NumNeg(Canon(FALSE, BnFromInt(2147483647), 0)), Pw2(31), Canon(FALSE, BnSub(BnShl(<<1>>, 32), <<1>>), 0),
+             NumNeg(Canon(FALSE, BnSub(BnShl(<<1>>, 32), <<1>>), 0)), Fr(5, 1), NumNeg(Fr(5, 1)), NZero>>
+Carried(how, n) ==
+    CASE how = "or0" -> ToInt32N(n) [] how = "notnot" -> ToInt32N(n) [] how = "shl0" -> ToInt32N(n)
+      [] how = "shr0" -> ToUint32N(n)
+      [] how = "mul1" -> n
+      [] how = "neg0" -> IF n = I(0) THEN NZero ELSE IF n = NZero THEN I(0) ELSE NumNeg(n)        \* -(n)
+CarSlot == [i \in 1..Len(Carriers) |-> [car |-> Carriers[i]]]
+RepVals == [i \in 1..Len(RepInts) |-> NumV(RepInts[i])]
+RepShapes ==
+    << <<FnSlot(Fns1Seq \o <<"isNaN", "isFinite">>), CarSlot, RepVals>>,
+       <<FnSlot(<<"pow", "atan2", "max", "min">>), CarSlot, RepVals, RepVals>> >>
 RandomShapes == << <<FnSlot(<<"random">>)>> >>
 
 -----------------------------------------------------------------------------
@@ -196,7 +216,7 @@ MutShapes == << <<DecFns, MutPos, MutRepl, MutSyms>>, <<DecFns, MutPos, MutRepl,
 ShapesOf(fam) ==
     CASE fam = "math" -> MathShapes [] fam = "gnum" -> GnumShapes [] fam = "const" -> ConstShapes [] fam = "random" -> RandomShapes
       [] fam = "enc" -> EncShapes [] fam = "single" -> SingleShapes [] fam = "lone" -> LoneShapes [] fam = "dec" -> DecShapes
-      [] fam = "unesc" -> UnShapes [] fam = "args" -> ArgShapes [] fam = "mut" -> MutShapes
+      [] fam = "unesc" -> UnShapes [] fam = "args" -> ArgShapes [] fam = "mut" -> MutShapes [] fam = "rep" -> RepShapes
 
 RECURSIVE ProdLen(_, _)
 ProdLen(sh, i) == IF i > Len(sh) THEN 1 ELSE Len(sh[i]) * ProdLen(sh, i + 1)
@@ -208,6 +228,9 @@ Flat(ps, i) == IF i > Len(ps) THEN <<>> ELSE ps[i] \o Flat(ps, i + 1)
 (* the case a choice denotes *)
 MkCase(fam, ch) ==
     CASE fam \in {"math", "gnum", "const", "random"} -> [fam |-> fam, f |-> ch[1].f, args |-> SubSeq(ch, 2, Len(ch))]
+      [] fam = "rep" -> [fam |-> IF ch[1].f \in {"isNaN", "isFinite"} THEN "gnumc" ELSE "mathc", f |-> ch[1].f, car |-> ch[2].car,
+                         raw |-> SubSeq(ch, 3, Len(ch)),
+                         args |-> [i \in 1..(Len(ch) - 2) |-> NumV(Carried(ch[2].car, ch[i + 2].n))]]
       [] fam = "args" -> [fam |-> "uri", f |-> ch[1].f, g |-> ch[1].g, src |-> "arg", args |-> SubSeq(ch, 2, Len(ch))]
       [] fam = "mut" ->
             LET s0 == Flat(SubSeq(ch, 4, Len(ch)), 1)
@@ -226,11 +249,18 @@ ArgsJs(args, i) == IF i > Len(args) THEN <<>>
 RECURSIVE UnitsJs(_, _)
 UnitsJs(s, i) == IF i > Len(s) THEN <<>> ELSE (IF i > 1 THEN <<",">> ELSE <<>>) \o <<ToString(s[i])>> \o UnitsJs(s, i + 1)
 
+CarJs(how, v) ==
+    CASE how = "or0" -> <<"(", Lit(v), "|0)">> [] how = "shr0" -> <<"(", Lit(v), ">>>0)">> [] how = "notnot" -> <<"(~~", Lit(v), ")">>
+      [] how = "shl0" -> <<"(", Lit(v), "<<0)">> [] how = "mul1" -> <<"(", Lit(v), "*1)">> [] how = "neg0" -> <<"(-(", Lit(v), "))">>
+RECURSIVE CarArgsJs(_, _, _)
+CarArgsJs(how, raw, i) == IF i > Len(raw) THEN <<>>
+                          ELSE (IF i > 1 THEN <<",">> ELSE <<>>) \o CarJs(how, raw[i]) \o CarArgsJs(how, raw, i + 1)
+
 Out(thr, v, log) == [thr |-> thr, v |-> v, log |-> log]
 Unrep == [t |-> "unrepresentable"]
 
 MathJs(c, rs) ==
-    LET call == <<"Math." \o c.f \o "(">> \o ArgsJs(c.args, 1) \o <<")">>
+    LET call == <<"Math." \o c.f \o "(">> \o (IF c.fam = "mathc" THEN CarArgsJs(c.car, c.raw, 1) ELSE ArgsJs(c.args, 1)) \o <<")">>
     IN  IF rs.thr = "" /\ rs.cls.k = "range"
         THEN <<"BETWEEN(">> \o call \o <<",", Lit(NumV(rs.cls.lo)), ",", Lit(NumV(rs.cls.hi)), ")">>
         ELSE call
@@ -250,16 +280,17 @@ UriSrc(c) == IF c.src = "fcc" THEN "fcc" ELSE "lit"
 
 (* the specification's result for a case: strict (dv = "S") or under the open deviations ("L") *)
 Res(c, dv) ==
-    CASE c.fam = "math" -> IF dv = "S" THEN MS!CallMath(c.f, c.args, <<>>) ELSE ML!CallMath(c.f, c.args, <<>>)
-      [] c.fam = "gnum" -> IF dv = "S" THEN MS!CallGlobalNum(c.f, c.args, <<>>) ELSE ML!CallGlobalNum(c.f, c.args, <<>>)
+    CASE c.fam \in {"math", "mathc"} -> IF dv = "S" THEN MS!CallMath(c.f, c.args, <<>>) ELSE ML!CallMath(c.f, c.args, <<>>)
+      [] c.fam \in {"gnum", "gnumc"} -> IF dv = "S" THEN MS!CallGlobalNum(c.f, c.args, <<>>) ELSE ML!CallGlobalNum(c.f, c.args, <<>>)
       [] c.fam = "uri" ->
             (IF dv = "S" THEN (IF c.g = "" THEN US!CallUri(c.f, c.args, UriSrc(c), <<>>) ELSE US!CallUri2(c.g, c.f, c.args, UriSrc(c), <<>>))
              ELSE (IF c.g = "" THEN UL!CallUri(c.f, c.args, UriSrc(c), <<>>) ELSE UL!CallUri2(c.g, c.f, c.args, UriSrc(c), <<>>)))
       [] OTHER -> Out("", Undef, <<>>)
 
 Js(c, rs) ==
-    CASE c.fam = "math" -> MathJs(c, rs)
+    CASE c.fam \in {"math", "mathc"} -> MathJs(c, rs)
       [] c.fam = "gnum" -> <<c.f \o "(">> \o ArgsJs(c.args, 1) \o <<")">>
+      [] c.fam = "gnumc" -> <<c.f \o "(">> \o CarArgsJs(c.car, c.raw, 1) \o <<")">>
       [] c.fam = "const" -> <<"Math." \o c.f>>
       [] c.fam = "random" -> <<"RANDOK()">>
       [] c.fam = "uri" -> UriJs(c)
@@ -269,7 +300,7 @@ Strip(r) == ProjObj(Out(r.thr, r.v, r.log))
 
 (* the outcome of the text chosen for the strict result rs when the call behaves as r *)
 Exp(c, rs, r) ==
-    CASE c.fam = "math" -> Strip(MathOut(rs, r))
+    CASE c.fam \in {"math", "mathc"} -> Strip(MathOut(rs, r))
       [] c.fam = "const" -> Out("", NumV(MS!MathConsts[c.f]), <<>>)
       [] c.fam = "random" -> Out("", BoolV(TRUE), <<>>)                     \* 15.8.2.14: 0 <= random() < 1
       [] OTHER -> Strip(r)
